@@ -7,6 +7,7 @@ import (
 	"encoding/base64"
 	"encoding/json"
 	"fmt"
+	"github.com/mandykoh/prism/meta"
 	"io"
 	"os"
 	"path/filepath"
@@ -116,6 +117,13 @@ func c05JPEG(name string, w, h int, prog bool, ncomp int, samp [2]byte, rng *cor
 	s.Before = randJPEGSegs(rng, segs, false)
 	if rng.Intn(3) == 0 {
 		s.After = randJPEGSegs(rng, 2, false)
+	}
+	if rng.Intn(8) == 0 {
+		// an ICC_PROFILE APP2 segment whose sequence number or total is out of range (0 of n, n+1 of n,
+		// 1 of 0): the profile is damaged, the frame header is as good as ever
+		nums := [][2]byte{{0, 1}, {0, 3}, {2, 1}, {1, 0}, {255, 254}, {0, 0}}[rng.Intn(6)]
+		pl := append(append([]byte("ICC_PROFILE\x00"), nums[0], nums[1]), rng.Bytes(1+rng.Intn(40))...)
+		s.Before = append(s.Before, imggen.JPEGSeg{Marker: 0xE2, Payload: pl, Name: "APP2-ICC-out-of-range"})
 	}
 	if !prog {
 		// a baseline frame may only use table destinations 0 and 1
@@ -337,6 +345,52 @@ func runC05(r *core.Run) {
 			}
 		}
 		total.Add(n)
+		// what a caller keeps: the metadata of the last three files is looked at again after every further
+		// load (the values belong to the file they were read from, whatever is loaded afterwards)
+		{
+			rg := core.NewRNG(r.Seed, "C05", "kept")
+			type keptMD struct {
+				md *meta.Data
+				f  genFile
+			}
+			var kept []keptMD
+			var n int64
+			for i := 0; i < 450; i++ {
+				var f genFile
+				switch i % 3 {
+				case 0:
+					td := core.Pick(rg, pngTypeDepths)
+					f = c05PNG("kept", uint32(1+rg.Intn(9000)), uint32(1+rg.Intn(9000)), td[0], td[1], 0, rg, 2)
+				case 1:
+					f = c05JPEG("kept", 1+rg.Intn(9000), 1+rg.Intn(9000), rg.Bool(), 3, [2]byte{1, 1}, rg, 2)
+				default:
+					f = c05WebP("kept", core.Pick(rg, []string{"VP8", "VP8L", "VP8X"}), uint32(1+rg.Intn(9000)), uint32(1+rg.Intn(9000)), rg, uint8(rg.Intn(256)))
+				}
+				loader := loaderFor(f.Truth.Format)
+				if i%2 == 1 {
+					loader = "autometa"
+				}
+				res := loadWith(loader, bytes.NewReader(f.Bytes))
+				n++
+				if res.Panic != nil || res.Err != nil || res.MD == nil {
+					continue // the per-file stages report that
+				}
+				for _, k := range kept {
+					if string(k.md.Format) != k.f.Truth.Format || k.md.PixelWidth != k.f.Truth.W || k.md.PixelHeight != k.f.Truth.H || k.md.BitsPerComponent != k.f.Truth.Depth {
+						r.Violate("file", k.f.Truth.Format+"/kept-metadata-changed", fmt.Sprintf("the metadata kept from %s now reads %s %dx%d depth %d after %s.Load of %s; its header says %s %dx%d depth %d", k.f.Name, k.md.Format, k.md.PixelWidth, k.md.PixelHeight, k.md.BitsPerComponent, loader, f.Name, k.f.Truth.Format, k.f.Truth.W, k.f.Truth.H, k.f.Truth.Depth),
+							c05Case{Name: k.f.Name, File: base64.StdEncoding.EncodeToString(k.f.Bytes), Truth: k.f.Truth})
+						kept = nil
+						break
+					}
+				}
+				kept = append(kept, keptMD{res.MD, f})
+				if len(kept) > 3 {
+					kept = kept[1:]
+				}
+			}
+			r.AddEvals(n)
+			r.Obs("files_whose_metadata_was_kept_across_later_loads", n)
+		}
 		r.Obs("interleaved_load_cases", n)
 	}
 	// frame headers with any legal number of components (Nf = 1 .. 255; the frame-header length is
